@@ -1,6 +1,7 @@
 SPECIFICATION SimSpec
 CONSTANTS
   WorkerCpus <- B_Workers
+  WorkerGroup <- B_Groups
   Menu <- B_Menu
   Classes <- B_Classes
   MaxLosses = 1
@@ -40,3 +41,5 @@ INVARIANTS
   C13_CompletedOnce
   C14_AbortAllOnExceed
   C14_ExceededStopped
+  C05_MnExclusive
+  C05_MnWorkersIdle
